@@ -2,14 +2,14 @@
   ActGen: the per-function equations collected (`actgen_agree`), and the coverage of the grammar's
   action functions by `Gen.actions` ++ `Gen.untranslated` (`actgen_covered`).
 -/
-import Bashlex.Props.ActGen.Agree
+import Bashlex.Props.ActGen.Loops
 import Bashlex.Gen.Tables
 
 namespace Bashlex.ActGen
 open Bashlex Bashlex.Gen
 set_option linter.unusedSimpArgs false
 
-/-- the condition under which the equation is proved (true for every function but nine) -/
+/-- the condition under which the equation is proved (true for every function but ten) -/
 def sliceOK (f : String) (args : List SVal) : Bool :=
   if f = "p_list1" ∨ f = "p_simple_list1" ∨ f = "p_pipeline" then
     isTokV (slot args 2) || isNodesV (slot args args.length)
@@ -18,6 +18,7 @@ def sliceOK (f : String) (args : List SVal) : Bool :=
   else if f = "p_redirection" then args.length == 2 || args.length == 3
   else if f = "p_function_body" then (match slot args 2 with | .nodes [] => false | _ => true)
   else if f = "p_command" then commandOK args
+  else if f = "p_redirection_heredoc" then isTokV (slot args (args.length - 1))
   else true
 
 attribute [local irreducible] evalAct actionCore in
@@ -27,7 +28,7 @@ theorem actgen_agree (np : NestedParse) :
       evalAct np fp.1 fp.2 args = actionCore np fp.1 args := by
   intro fp hmem args hok
   simp only [Gen.actions, List.mem_cons, List.not_mem_nil, or_false] at hmem
-  rcases hmem with rfl | rfl | rfl | rfl | rfl | rfl | rfl | rfl | rfl | rfl | rfl | rfl | rfl | rfl | rfl | rfl | rfl | rfl | rfl | rfl | rfl | rfl | rfl | rfl | rfl | rfl | rfl | rfl | rfl | rfl | rfl | rfl
+  rcases hmem with rfl | rfl | rfl | rfl | rfl | rfl | rfl | rfl | rfl | rfl | rfl | rfl | rfl | rfl | rfl | rfl | rfl | rfl | rfl | rfl | rfl | rfl | rfl | rfl | rfl | rfl | rfl | rfl | rfl | rfl | rfl | rfl | rfl | rfl | rfl | rfl | rfl | rfl | rfl
   all_goals first
     | exact actgen_p_word_list np args | exact actgen_p_redirection_list np args
     | exact actgen_p_simple_command np args | exact actgen_p_case_clause np args
@@ -42,6 +43,9 @@ theorem actgen_agree (np : NestedParse) :
     | exact actgen_p_list0 np args
     | exact actgen_p_simple_command_element np args
     | exact actgen_p_shell_command np args
+    | exact actgen_p_elif_clause np args | exact actgen_p_for_command np args
+    | exact actgen_p_function_def np args | exact actgen_p_inputunit np args
+    | exact actgen_p_simple_list np args | exact actgen_p_pipeline_command np args
     | exact actgen_p_list1 np args (by simpa [sliceOK] using hok)
     | exact actgen_p_simple_list1 np args (by simpa [sliceOK] using hok)
     | exact actgen_p_pipeline np args (by simpa [sliceOK] using hok)
@@ -50,6 +54,7 @@ theorem actgen_agree (np : NestedParse) :
     | exact actgen_p_pattern_list np args (by simpa [sliceOK] using hok)
     | exact actgen_p_redirection np args (by simpa [sliceOK] using hok)
     | exact actgen_p_command np args (by simpa [sliceOK] using hok)
+    | exact actgen_p_redirection_heredoc np args (by simpa [sliceOK] using hok)
     | exact actgen_p_function_body np args (by
         intro h2; simp [sliceOK, h2] at hok)
 
